@@ -6,6 +6,8 @@ import inspect
 
 import z3
 
+from . import seqs as Q
+
 from . import locate
 from .engine import MUTATORS, _container, _join_tys, _m
 from .ty import *      # noqa
@@ -28,7 +30,7 @@ def seq_of(E, v, st):
             ty = parts[0].ty
             t = parts[0].t
             for p in parts[1:]:
-                t = z3.Concat(t, E.coerce(p, ty, st).t)
+                t = Q.Concat(t, E.coerce(p, ty, st).t)
             return SVal(t, ty)
         raise OutsideSubset(f"sequence view of {v.kind}")
     if isinstance(v, STuple):
@@ -38,8 +40,8 @@ def seq_of(E, v, st):
         ety = _join_tys([i.ty for i in items])
         t = None
         for it in items:
-            u = z3.Unit(E.coerce(it, ety, st).t)
-            t = u if t is None else z3.Concat(t, u)
+            u = Q.Unit(E.coerce(it, ety, st).t)
+            t = u if t is None else Q.Concat(t, u)
         return SVal(t, TList(ety))
     if isinstance(v, PyObj):
         v = E.materialize(v, st)
@@ -54,7 +56,7 @@ def seq_of(E, v, st):
     if isinstance(v.ty, TDict):
         return dict_order(E, v, st)
     if v.ty is OPAQUE:
-        f = E.uf("iter_seq", [E.U.U], z3.SeqSort(E.U.U))
+        f = E.uf("iter_seq", [E.U.U], Q.list_sort(E.U.U))
         return SVal(f(v.t), TList(OPAQUE))
     raise OutsideSubset(f"iteration over {v.ty}")
 
@@ -66,10 +68,10 @@ def set_order(E, s, st):
     seq = E.fresh(TList(ety), "set_iter")
     i, j = z3.Ints(f"i!so{next(E.n)} j!so{next(E.n)}")
     x = z3.Const(f"x!so{next(E.n)}", E.U.sort(ety))
-    n = z3.Length(seq.t)
-    st.assume(z3.ForAll([i], z3.Implies(z3.And(0 <= i, i < n), z3.Select(s.t, seq.t[i]))))
-    st.assume(z3.ForAll([x], z3.Implies(z3.Select(s.t, x), z3.Contains(seq.t, z3.Unit(x)))))
-    st.assume(z3.ForAll([i, j], z3.Implies(z3.And(0 <= i, i < j, j < n), seq.t[i] != seq.t[j])))
+    n = Q.Length(seq.t)
+    st.assume(z3.ForAll([i], z3.Implies(z3.And(0 <= i, i < n), z3.Select(s.t, Q.At(seq.t, i)))))
+    st.assume(z3.ForAll([x], z3.Implies(z3.Select(s.t, x), E.seq_member(seq.t, x))))
+    st.assume(z3.ForAll([i, j], z3.Implies(z3.And(0 <= i, i < j, j < n), Q.At(seq.t, i) != Q.At(seq.t, j))))
     return seq
 
 
@@ -77,15 +79,15 @@ def dict_order(E, d, st):
     """insertion order of a dict's keys: an uninterpreted function of the dict value (deterministic)"""
     kty = d.ty.k
     dt = E.U.dt(d.ty)
-    f = E.uf("keys_order_" + _m(d.ty.key), [E.U.sort(d.ty)], z3.SeqSort(E.U.sort(kty)))
+    f = E.uf("keys_order_" + _m(d.ty.key), [E.U.sort(d.ty)], Q.list_sort(E.U.sort(kty)))
     seq = SVal(f(d.t), TList(kty))
     i, j = z3.Ints(f"i!do{next(E.n)} j!do{next(E.n)}")
     x = z3.Const(f"x!do{next(E.n)}", E.U.sort(kty))
-    n = z3.Length(seq.t)
+    n = Q.Length(seq.t)
     dom = dt.dom(d.t)
-    st.assume(z3.ForAll([i], z3.Implies(z3.And(0 <= i, i < n), z3.Select(dom, seq.t[i]))))
-    st.assume(z3.ForAll([x], z3.Implies(z3.Select(dom, x), z3.Contains(seq.t, z3.Unit(x)))))
-    st.assume(z3.ForAll([i, j], z3.Implies(z3.And(0 <= i, i < j, j < n), seq.t[i] != seq.t[j])))
+    st.assume(z3.ForAll([i], z3.Implies(z3.And(0 <= i, i < n), z3.Select(dom, Q.At(seq.t, i)))))
+    st.assume(z3.ForAll([x], z3.Implies(z3.Select(dom, x), E.seq_member(seq.t, x))))
+    st.assume(z3.ForAll([i, j], z3.Implies(z3.And(0 <= i, i < j, j < n), Q.At(seq.t, i) != Q.At(seq.t, j))))
     return seq
 
 
@@ -107,7 +109,7 @@ def b_len(E, args, kw, st, node):
         if st is None:
             return
     if isinstance(v.ty, TList) or v.ty is STR:
-        yield st, SVal(z3.Length(v.t), INT)
+        yield st, SVal(Q.Length(v.t), INT)
     elif isinstance(v.ty, TTuple):
         yield st, E.const(len(v.ty.elems))
     elif isinstance(v.ty, (TSet, TDict)):
@@ -122,6 +124,35 @@ def b_len(E, args, kw, st, node):
         yield st, SVal(f(v.t), INT)
     else:
         raise OutsideSubset(f"len of {v.ty}")
+
+
+def b_any(E, args, kw, st, node, is_all=False):
+    v = args[0]
+    if isinstance(v, IterView) and v.kind == "gen":
+        from .comp import quantifier
+        saved = st.bound
+        st.bound = list(v.args[1]) if v.args[1] else st.bound
+        try:
+            outs = list(quantifier(E, is_all, v.args[0], st))
+        finally:
+            st.bound = saved
+        for s2, r in outs:
+            s2.bound = saved
+            yield s2, r
+        return
+    from .comp import binder
+    b = binder(E, v, st)
+    if b[0] == "unroll":
+        ts = [E.truthy(x, st) for x in b[1]]
+        yield st, SVal((z3.And(ts) if is_all else z3.Or(ts)) if ts else z3.BoolVal(is_all), BOOL)
+        return
+    _, bs, guard, ev, _i, _n = b
+    t = E.truthy(ev, st)
+    yield st, SVal(z3.ForAll(bs, z3.Implies(guard, t)) if is_all else z3.Exists(bs, z3.And(guard, t)), BOOL)
+
+
+def b_all(E, args, kw, st, node):
+    yield from b_any(E, args, kw, st, node, is_all=True)
 
 
 def b_isinstance(E, args, kw, st, node):
@@ -279,7 +310,7 @@ def b_set(E, args, kw, st, node):
         return
     s = seq_of(E, v, st)
     x = z3.Const(f"x!set{next(E.n)}", E.U.sort(s.ty.elem))
-    yield st, SVal(z3.Lambda([x], z3.Contains(s.t, z3.Unit(x))), TSet(s.ty.elem))
+    yield st, SVal(z3.Lambda([x], E.seq_member(s.t, x)), TSet(s.ty.elem))
 
 
 def b_dict(E, args, kw, st, node):
@@ -312,21 +343,21 @@ def b_sorted(E, args, kw, st, node):
         if sset is None:
             f = E.uf("sorted_seq_" + _m(s.ty.key), [E.U.sort(s.ty)], E.U.sort(s.ty))
             r = SVal(f(s.t), s.ty)
-            st.assume(z3.Length(r.t) == z3.Length(s.t))
+            st.assume(Q.Length(r.t) == Q.Length(s.t))
             x = z3.Const(f"x!srt{next(E.n)}", E.U.sort(s.ty.elem))
-            st.assume(z3.ForAll([x], z3.Contains(r.t, z3.Unit(x)) == z3.Contains(s.t, z3.Unit(x))))
+            st.assume(z3.ForAll([x], E.seq_member(r.t, x) == E.seq_member(s.t, x)))
             E.assumptions.add("sorted(list): permutation (same length, same members) as an uninterpreted function of the list")
             yield st, r
             return
     ety = sset.ty.elem
-    f = E.uf("sorted_of_" + _m(sset.ty.key), [E.U.sort(sset.ty)], z3.SeqSort(E.U.sort(ety)))
+    f = E.uf("sorted_of_" + _m(sset.ty.key), [E.U.sort(sset.ty)], Q.list_sort(E.U.sort(ety)))
     r = SVal(f(sset.t), TList(ety))
     i, j = z3.Ints(f"i!srt{next(E.n)} j!srt{next(E.n)}")
     x = z3.Const(f"x!srt{next(E.n)}", E.U.sort(ety))
-    n = z3.Length(r.t)
-    st.assume(z3.ForAll([i], z3.Implies(z3.And(0 <= i, i < n), z3.Select(sset.t, r.t[i]))))
-    st.assume(z3.ForAll([x], z3.Implies(z3.Select(sset.t, x), z3.Contains(r.t, z3.Unit(x)))))
-    st.assume(z3.ForAll([i, j], z3.Implies(z3.And(0 <= i, i < j, j < n), r.t[i] != r.t[j])))
+    n = Q.Length(r.t)
+    st.assume(z3.ForAll([i], z3.Implies(z3.And(0 <= i, i < n), z3.Select(sset.t, Q.At(r.t, i)))))
+    st.assume(z3.ForAll([x], z3.Implies(z3.Select(sset.t, x), E.seq_member(r.t, x))))
+    st.assume(z3.ForAll([i, j], z3.Implies(z3.And(0 <= i, i < j, j < n), Q.At(r.t, i) != Q.At(r.t, j))))
     E.assumptions.add("sorted(set): duplicate-free enumeration that is a function of the set (order axioms not needed)")
     yield st, r
 
@@ -409,7 +440,7 @@ def b_id(E, args, kw, st, node):
     yield st, args[0]
 
 
-BUILTINS = {"len": b_len, "isinstance": b_isinstance, "str": b_str, "int": b_int, "bool": b_bool, "list": b_list,
+BUILTINS = {"any": b_any, "all": b_all, "len": b_len, "isinstance": b_isinstance, "str": b_str, "int": b_int, "bool": b_bool, "list": b_list,
             "tuple": b_tuple, "set": b_set, "dict": b_dict, "sorted": b_sorted, "enumerate": b_enumerate, "range": b_range,
             "zip": b_zip, "hasattr": b_hasattr, "getattr": b_getattr, "min": b_min, "max": b_min, "type": b_type,
             "open": b_open, "next": b_next, "sum": b_sum, "print": b_print, "frozenset": b_set}
@@ -497,8 +528,8 @@ def s_distinct(E, args, kw, st, node):
     """distinct(seq): no duplicates"""
     s = seq_of(E, args[0], st)
     i, j = z3.Ints(f"i!dst{next(E.n)} j!dst{next(E.n)}")
-    n = z3.Length(s.t)
-    yield st, SVal(z3.ForAll([i, j], z3.Implies(z3.And(0 <= i, i < j, j < n), s.t[i] != s.t[j])), BOOL)
+    n = Q.Length(s.t)
+    yield st, SVal(z3.ForAll([i, j], z3.Implies(z3.And(0 <= i, i < j, j < n), Q.At(s.t, i) != Q.At(s.t, j))), BOOL)
 
 
 def s_none(E, args, kw, st, node):
@@ -564,7 +595,7 @@ def call_method(E, bm, args, kw, st, node):
     if lv is None:
         lv = recv.origin
     # nominally tagged container (dict subclass): repo-defined methods first, through the real MRO
-    tag = getattr(ty, "cls", None)
+    tag = getattr(ty, "cls", None) if isinstance(ty, (TDict, TList, TSet)) else None
     if tag is not None:
         k = locate.resolve(tag)[0]
         for kk in k.__mro__:
@@ -593,6 +624,17 @@ def call_method(E, bm, args, kw, st, node):
         rec = E.U.record_of(ty.cls)
         if rec is None or rec.pyclass is None:
             raise OutsideSubset(f"method {name} on {ty.cls}: class not importable")
+        dyn = E.reg.contracts.get(f"dyn:{rec.short}.{name}")
+        if dyn is None:
+            for kk in rec.pyclass.__mro__[1:]:
+                dyn = E.reg.contracts.get(f"dyn:{kk.__name__}.{name}")
+                if dyn is not None:
+                    break
+        if dyn is not None and not getattr(st, "static_dispatch", False):
+            # overridable method on a value of declared base type: the dynamic-dispatch contract (every override
+            # carries a refinement obligation against it)
+            yield from apply_contract(E, dyn, None, [recv] + args, kw, st, node)
+            return
         raw = None
         for kk in rec.pyclass.__mro__:
             if name in kk.__dict__:
@@ -669,7 +711,7 @@ def empty_method(E, recv, name, lv, args, kw, st, node):
     kind = recv.kind
     if kind == "list" and name == "append":
         v = _mat(E, args[0], st)
-        nv = SVal(z3.Unit(v.t), TList(v.ty))
+        nv = SVal(Q.Unit(v.t), TList(v.ty))
         E.mutate(st, lv, recv, nv)
         yield st, SVal(None, NONE)
         return
@@ -704,7 +746,7 @@ def list_method(E, recv, name, lv, args, kw, st, node):
     ty = recv.ty
     if name == "append":
         v = E.coerce(args[0], ty.elem, st)
-        E.mutate(st, lv, recv, SVal(z3.Concat(recv.t, z3.Unit(v.t)), ty))
+        E.mutate(st, lv, recv, SVal(Q.Concat(recv.t, Q.Unit(v.t)), ty))
         yield st, SVal(None, NONE)
     elif name == "extend":
         a = args[0]
@@ -714,28 +756,31 @@ def list_method(E, recv, name, lv, args, kw, st, node):
         if isinstance(a, IterView) and a.kind == "gen":
             from .comp import list_comp_from_gen
             for s2, lst in list_comp_from_gen(E, a, st):
-                E.mutate(s2, lv, recv, SVal(z3.Concat(recv.t, E.coerce(lst, ty, s2).t), ty))
+                E.mutate(s2, lv, recv, SVal(Q.Concat(recv.t, E.coerce(lst, ty, s2).t), ty))
                 yield s2, SVal(None, NONE)
             return
         s = E.coerce(seq_of(E, a, st), ty, st)
-        E.mutate(st, lv, recv, SVal(z3.Concat(recv.t, s.t), ty))
+        E.mutate(st, lv, recv, SVal(Q.Concat(recv.t, s.t), ty))
         yield st, SVal(None, NONE)
     elif name == "copy":
         yield st, SVal(recv.t, ty)
     elif name == "index":
         v = E.coerce(args[0], ty.elem, st)
-        st = E.guard(st, z3.Contains(recv.t, z3.Unit(v.t)), ValueError, "list.index: not in list")
+        st = E.guard(st, E.seq_member(recv.t, v.t), ValueError, "list.index: not in list")
         if st is None:
             return
-        i = z3.IndexOf(recv.t, z3.Unit(v.t), 0)
+        i = z3.Int(E.fresh_name("index_of"))
+        j = z3.Int(E.fresh_name("ij"))
+        st.assume(z3.And(0 <= i, i < Q.Length(recv.t), Q.At(recv.t, i) == v.t,
+                         z3.ForAll([j], z3.Implies(z3.And(0 <= j, j < i), Q.At(recv.t, j) != v.t))))
         yield st, SVal(i, INT)
     elif name == "count":
         raise OutsideSubset("list.count")
     elif name == "insert":
         i = E.coerce(args[0], INT, st)
         v = E.coerce(args[1], ty.elem, st)
-        n = z3.Length(recv.t)
-        E.mutate(st, lv, recv, SVal(z3.Concat(z3.Extract(recv.t, 0, i.t), z3.Unit(v.t), z3.Extract(recv.t, i.t, n - i.t)), ty))
+        n = Q.Length(recv.t)
+        E.mutate(st, lv, recv, SVal(Q.Concat(Q.Extract(recv.t, 0, i.t), Q.Unit(v.t), Q.Extract(recv.t, i.t, n - i.t)), ty))
         yield st, SVal(None, NONE)
     else:
         raise OutsideSubset(f"list.{name}")
@@ -763,8 +808,8 @@ def dict_method(E, recv, name, lv, args, kw, st, node):
         # values in key order: map through an uninterpreted sequence with pointwise axiom
         r = E.fresh(TList(ty.v), "dict_values")
         i = z3.Int(f"i!dv{next(E.n)}")
-        st.assume(z3.Length(r.t) == z3.Length(ks.t))
-        st.assume(z3.ForAll([i], z3.Implies(z3.And(0 <= i, i < z3.Length(ks.t)), r.t[i] == z3.Select(val, ks.t[i]))))
+        st.assume(Q.Length(r.t) == Q.Length(ks.t))
+        st.assume(z3.ForAll([i], z3.Implies(z3.And(0 <= i, i < Q.Length(ks.t)), Q.At(r.t, i) == z3.Select(val, Q.At(ks.t, i)))))
         yield st, r
     elif name == "items":
         yield st, IterView("items", recv)
@@ -814,7 +859,7 @@ def set_method(E, recv, name, lv, args, kw, st, node):
         else:
             s = seq_of(E, a, st)
             x = z3.Const(f"x!su{next(E.n)}", E.U.sort(ty.elem))
-            o = SVal(z3.Lambda([x], z3.Contains(E.coerce(s, TList(ty.elem), st).t, z3.Unit(x))), ty)
+            o = SVal(z3.Lambda([x], E.seq_member(E.coerce(s, TList(ty.elem), st).t, x)), ty)
         E.mutate(st, lv, recv, SVal(E.set_union(recv.t, o.t, ty), ty))
         yield st, SVal(None, NONE)
     elif name == "copy":
@@ -835,11 +880,11 @@ def str_method(E, recv, name, args, kw, st, node):
         yield st, SVal(z3.SuffixOf(E.coerce(args[0], STR, st).t, recv.t), BOOL)
     elif name == "split":
         sep = E.coerce(args[0], STR, st) if args else E.const(" ")
-        f = E.uf("str_split", [S, S], z3.SeqSort(S))
+        f = E.uf("str_split", [S, S], Q.list_sort(S))
         r = SVal(f(recv.t, sep.t), TList(STR))
-        st.assume(z3.Length(r.t) >= 1)
-        st.assume((z3.Length(r.t) == 1) == z3.Not(z3.Contains(recv.t, sep.t)))
-        st.assume(z3.Implies(z3.Length(r.t) == 1, r.t[0] == recv.t))
+        st.assume(Q.Length(r.t) >= 1)
+        st.assume((Q.Length(r.t) == 1) == z3.Not(z3.Contains(recv.t, sep.t)))
+        st.assume(z3.Implies(Q.Length(r.t) == 1, Q.At(r.t, 0) == recv.t))
         E.assumptions.add("str.split(sep): uninterpreted; len >= 1; len == 1 iff sep not in s (then the only piece is s)")
         yield st, r
     elif name in ("strip", "rstrip", "lstrip", "lower", "upper", "title"):
@@ -850,7 +895,7 @@ def str_method(E, recv, name, args, kw, st, node):
         E.assumptions.add(f"str.{name}: uninterpreted total function")
         yield st, r
     elif name == "splitlines":
-        f = E.uf("splitlines_ke", [S], z3.SeqSort(S))
+        f = E.uf("splitlines_ke", [S], Q.list_sort(S))
         E.assumptions.add("str.splitlines(keepends=True): uninterpreted total function")
         yield st, SVal(f(recv.t), TList(STR))
     elif name == "join":
@@ -859,10 +904,10 @@ def str_method(E, recv, name, args, kw, st, node):
         if s is None:
             from .comp import list_comp_from_gen
             for s2, lst in list_comp_from_gen(E, a, st):
-                f = E.uf("str_join", [S, z3.SeqSort(S)], S)
+                f = E.uf("str_join", [S, Q.list_sort(S)], S)
                 yield s2, SVal(f(recv.t, E.coerce(lst, TList(STR), s2).t), STR)
             return
-        f = E.uf("str_join", [S, z3.SeqSort(S)], S)
+        f = E.uf("str_join", [S, Q.list_sort(S)], S)
         E.assumptions.add("str.join: uninterpreted total function of (separator, list)")
         yield st, SVal(f(recv.t, E.coerce(s, TList(STR), st).t), STR)
     elif name == "replace":
